@@ -26,8 +26,12 @@ def fixture_texts():
 
 
 def texts_to_lines(ctx, texts):
-    """real lexer -> wire lines (a lexer crash shows up as a non-`parse` line)"""
-    return ctx.run_harness("toks", ["toks " + core.esc(t) for t in texts])
+    """real lexer -> wire lines; when the lexer does not return a token list (panic / hang / crash) the line is
+    `LEXFAIL:<what> toks <escaped text>` so that the failing input is not lost"""
+    cases = ["toks " + core.esc(t) for t in texts]
+    out = ctx.run_harness("toks", cases)
+    # `<skipped …>`: the shard was given up after several hangs (each already reported) — not a case
+    return [o if o.startswith("parse") else "LEXFAIL:%s %s" % (o.split(" ")[0], c) for o, c in zip(out, cases) if not o.startswith("<skipped")]
 
 
 def towers(depth):
@@ -135,7 +139,7 @@ def battery(ctx, prop, exh_len, n_prog, n_soup, tower_depth=128, list_len=2000, 
         for L in range(0, text_len + 1):
             for s in itertools.product(ALPHA17, repeat=L):
                 texts.append("".join(s))
-        uni = "aB_1. \n\r'\";#<=+&$éß漢🙂\t  {}[]()"
+        uni = 'aB_1. \n\r\'";#<=+&$éß漢🙂\t  {}[]()²½٣①Ⅷ๓жΩאَ́\u200b\u202e\ufeff\xa0'   # incl. non-ASCII numerics, other scripts, combining / zero-width / bidi
         words = ["proc", "EndProc", "IF", "endif", "var", "x", "Class", "uses", "const", "oql", "select", "refTo"]
         for _ in range(n_text):
             n = 1 + ctx.rng.below(60)
